@@ -225,6 +225,8 @@ def run(ctx, out, tier):
         check_once(ctx, out, dv, rule="C13.once")
     else:
         out.inst("C13.once", 0, 4)
+    from rules.shared import check_detect_cases
+    check_detect_cases(ctx, out, ["affects", "keep-sorted", "keep-unique", "line-pattern", "line-count", "check-lua", "check-ai"], rule="C13.detectcase")
     for nm in ctx.roles()["validators"]:
         shared.sh_visit(ctx, out, nm, rule="C13.visit")
     from rules.C18 import check_fresh
